@@ -92,6 +92,15 @@ Record inst := mkInst {
 
 Record collector := mkColl { co_dest : dest; co_data : list sdentry; co_done : bool }.
 
+(* GHOST history, written by queue_send / collector_timeout / send_sd only and read by nothing: what was queued, what a
+   collector handed over for transmission, and which (flag, session id) each SD transmission was given.  It is not
+   part of the observable result (s_final, traces) and exists so that conservation and session-id theorems can be
+   stated over whole runs of the stack. *)
+Inductive gev :=
+| GQueue (e : sdentry) (d : dest)
+| GFlush (d : dest) (es : list sdentry)
+| GSend (es : list sdentry) (d : dest) (flag : bool) (sid : N).
+
 Record world := mkWorld {
   now : N;
   ready : list (option N * handle);
@@ -114,27 +123,29 @@ Record world := mkWorld {
   collectors : list (N * collector);
   tasks : list (N * task);
   draws : list N;
-  out : list (N * event)
+  out : list (N * event);
+  glog : list (N * gev)
 }.
-Definition set_now (v : N) (w : world) : world := mkWorld (v) (ready w) (timers w) (cancelled w) (next_id w) (cfg w) (sess w) (sub_alive w) (sub_task w) (sub_entries w) (watched w) (watch_all w) (found w) (disc_task w) (ann_started w) (announcing w) (insts w) (queues w) (collectors w) (tasks w) (draws w) (out w).
-Definition set_ready (v : list (option N * handle)) (w : world) : world := mkWorld (now w) (v) (timers w) (cancelled w) (next_id w) (cfg w) (sess w) (sub_alive w) (sub_task w) (sub_entries w) (watched w) (watch_all w) (found w) (disc_task w) (ann_started w) (announcing w) (insts w) (queues w) (collectors w) (tasks w) (draws w) (out w).
-Definition set_timers (v : list (N * N * handle)) (w : world) : world := mkWorld (now w) (ready w) (v) (cancelled w) (next_id w) (cfg w) (sess w) (sub_alive w) (sub_task w) (sub_entries w) (watched w) (watch_all w) (found w) (disc_task w) (ann_started w) (announcing w) (insts w) (queues w) (collectors w) (tasks w) (draws w) (out w).
-Definition set_cancelled (v : list N) (w : world) : world := mkWorld (now w) (ready w) (timers w) (v) (next_id w) (cfg w) (sess w) (sub_alive w) (sub_task w) (sub_entries w) (watched w) (watch_all w) (found w) (disc_task w) (ann_started w) (announcing w) (insts w) (queues w) (collectors w) (tasks w) (draws w) (out w).
-Definition set_next_id (v : N) (w : world) : world := mkWorld (now w) (ready w) (timers w) (cancelled w) (v) (cfg w) (sess w) (sub_alive w) (sub_task w) (sub_entries w) (watched w) (watch_all w) (found w) (disc_task w) (ann_started w) (announcing w) (insts w) (queues w) (collectors w) (tasks w) (draws w) (out w).
-Definition set_cfg (v : timings) (w : world) : world := mkWorld (now w) (ready w) (timers w) (cancelled w) (next_id w) (v) (sess w) (sub_alive w) (sub_task w) (sub_entries w) (watched w) (watch_all w) (found w) (disc_task w) (ann_started w) (announcing w) (insts w) (queues w) (collectors w) (tasks w) (draws w) (out w).
-Definition set_sess (v : Session.sess) (w : world) : world := mkWorld (now w) (ready w) (timers w) (cancelled w) (next_id w) (cfg w) (v) (sub_alive w) (sub_task w) (sub_entries w) (watched w) (watch_all w) (found w) (disc_task w) (ann_started w) (announcing w) (insts w) (queues w) (collectors w) (tasks w) (draws w) (out w).
-Definition set_sub_alive (v : bool) (w : world) : world := mkWorld (now w) (ready w) (timers w) (cancelled w) (next_id w) (cfg w) (sess w) (v) (sub_task w) (sub_entries w) (watched w) (watch_all w) (found w) (disc_task w) (ann_started w) (announcing w) (insts w) (queues w) (collectors w) (tasks w) (draws w) (out w).
-Definition set_sub_task (v : option N) (w : world) : world := mkWorld (now w) (ready w) (timers w) (cancelled w) (next_id w) (cfg w) (sess w) (sub_alive w) (v) (sub_entries w) (watched w) (watch_all w) (found w) (disc_task w) (ann_started w) (announcing w) (insts w) (queues w) (collectors w) (tasks w) (draws w) (out w).
-Definition set_sub_entries (v : list (eventgroup * addr)) (w : world) : world := mkWorld (now w) (ready w) (timers w) (cancelled w) (next_id w) (cfg w) (sess w) (sub_alive w) (sub_task w) (v) (watched w) (watch_all w) (found w) (disc_task w) (ann_started w) (announcing w) (insts w) (queues w) (collectors w) (tasks w) (draws w) (out w).
-Definition set_watched (v : list (service * list listener)) (w : world) : world := mkWorld (now w) (ready w) (timers w) (cancelled w) (next_id w) (cfg w) (sess w) (sub_alive w) (sub_task w) (sub_entries w) (v) (watch_all w) (found w) (disc_task w) (ann_started w) (announcing w) (insts w) (queues w) (collectors w) (tasks w) (draws w) (out w).
-Definition set_watch_all (v : list listener) (w : world) : world := mkWorld (now w) (ready w) (timers w) (cancelled w) (next_id w) (cfg w) (sess w) (sub_alive w) (sub_task w) (sub_entries w) (watched w) (v) (found w) (disc_task w) (ann_started w) (announcing w) (insts w) (queues w) (collectors w) (tasks w) (draws w) (out w).
-Definition set_found (v : store) (w : world) : world := mkWorld (now w) (ready w) (timers w) (cancelled w) (next_id w) (cfg w) (sess w) (sub_alive w) (sub_task w) (sub_entries w) (watched w) (watch_all w) (v) (disc_task w) (ann_started w) (announcing w) (insts w) (queues w) (collectors w) (tasks w) (draws w) (out w).
-Definition set_disc_task (v : option N) (w : world) : world := mkWorld (now w) (ready w) (timers w) (cancelled w) (next_id w) (cfg w) (sess w) (sub_alive w) (sub_task w) (sub_entries w) (watched w) (watch_all w) (found w) (v) (ann_started w) (announcing w) (insts w) (queues w) (collectors w) (tasks w) (draws w) (out w).
-Definition set_ann_started (v : bool) (w : world) : world := mkWorld (now w) (ready w) (timers w) (cancelled w) (next_id w) (cfg w) (sess w) (sub_alive w) (sub_task w) (sub_entries w) (watched w) (watch_all w) (found w) (disc_task w) (v) (announcing w) (insts w) (queues w) (collectors w) (tasks w) (draws w) (out w).
-Definition set_announcing (v : list N) (w : world) : world := mkWorld (now w) (ready w) (timers w) (cancelled w) (next_id w) (cfg w) (sess w) (sub_alive w) (sub_task w) (sub_entries w) (watched w) (watch_all w) (found w) (disc_task w) (ann_started w) (v) (insts w) (queues w) (collectors w) (tasks w) (draws w) (out w).
-Definition set_insts (v : list (N * inst)) (w : world) : world := mkWorld (now w) (ready w) (timers w) (cancelled w) (next_id w) (cfg w) (sess w) (sub_alive w) (sub_task w) (sub_entries w) (watched w) (watch_all w) (found w) (disc_task w) (ann_started w) (announcing w) (v) (queues w) (collectors w) (tasks w) (draws w) (out w).
-Definition set_queues (v : list (dest * N)) (w : world) : world := mkWorld (now w) (ready w) (timers w) (cancelled w) (next_id w) (cfg w) (sess w) (sub_alive w) (sub_task w) (sub_entries w) (watched w) (watch_all w) (found w) (disc_task w) (ann_started w) (announcing w) (insts w) (v) (collectors w) (tasks w) (draws w) (out w).
-Definition set_collectors (v : list (N * collector)) (w : world) : world := mkWorld (now w) (ready w) (timers w) (cancelled w) (next_id w) (cfg w) (sess w) (sub_alive w) (sub_task w) (sub_entries w) (watched w) (watch_all w) (found w) (disc_task w) (ann_started w) (announcing w) (insts w) (queues w) (v) (tasks w) (draws w) (out w).
-Definition set_tasks (v : list (N * task)) (w : world) : world := mkWorld (now w) (ready w) (timers w) (cancelled w) (next_id w) (cfg w) (sess w) (sub_alive w) (sub_task w) (sub_entries w) (watched w) (watch_all w) (found w) (disc_task w) (ann_started w) (announcing w) (insts w) (queues w) (collectors w) (v) (draws w) (out w).
-Definition set_draws (v : list N) (w : world) : world := mkWorld (now w) (ready w) (timers w) (cancelled w) (next_id w) (cfg w) (sess w) (sub_alive w) (sub_task w) (sub_entries w) (watched w) (watch_all w) (found w) (disc_task w) (ann_started w) (announcing w) (insts w) (queues w) (collectors w) (tasks w) (v) (out w).
-Definition set_out (v : list (N * event)) (w : world) : world := mkWorld (now w) (ready w) (timers w) (cancelled w) (next_id w) (cfg w) (sess w) (sub_alive w) (sub_task w) (sub_entries w) (watched w) (watch_all w) (found w) (disc_task w) (ann_started w) (announcing w) (insts w) (queues w) (collectors w) (tasks w) (draws w) (v).
+Definition set_now (v : N) (w : world) : world := mkWorld (v) (ready w) (timers w) (cancelled w) (next_id w) (cfg w) (sess w) (sub_alive w) (sub_task w) (sub_entries w) (watched w) (watch_all w) (found w) (disc_task w) (ann_started w) (announcing w) (insts w) (queues w) (collectors w) (tasks w) (draws w) (out w) (glog w).
+Definition set_ready (v : list (option N * handle)) (w : world) : world := mkWorld (now w) (v) (timers w) (cancelled w) (next_id w) (cfg w) (sess w) (sub_alive w) (sub_task w) (sub_entries w) (watched w) (watch_all w) (found w) (disc_task w) (ann_started w) (announcing w) (insts w) (queues w) (collectors w) (tasks w) (draws w) (out w) (glog w).
+Definition set_timers (v : list (N * N * handle)) (w : world) : world := mkWorld (now w) (ready w) (v) (cancelled w) (next_id w) (cfg w) (sess w) (sub_alive w) (sub_task w) (sub_entries w) (watched w) (watch_all w) (found w) (disc_task w) (ann_started w) (announcing w) (insts w) (queues w) (collectors w) (tasks w) (draws w) (out w) (glog w).
+Definition set_cancelled (v : list N) (w : world) : world := mkWorld (now w) (ready w) (timers w) (v) (next_id w) (cfg w) (sess w) (sub_alive w) (sub_task w) (sub_entries w) (watched w) (watch_all w) (found w) (disc_task w) (ann_started w) (announcing w) (insts w) (queues w) (collectors w) (tasks w) (draws w) (out w) (glog w).
+Definition set_next_id (v : N) (w : world) : world := mkWorld (now w) (ready w) (timers w) (cancelled w) (v) (cfg w) (sess w) (sub_alive w) (sub_task w) (sub_entries w) (watched w) (watch_all w) (found w) (disc_task w) (ann_started w) (announcing w) (insts w) (queues w) (collectors w) (tasks w) (draws w) (out w) (glog w).
+Definition set_cfg (v : timings) (w : world) : world := mkWorld (now w) (ready w) (timers w) (cancelled w) (next_id w) (v) (sess w) (sub_alive w) (sub_task w) (sub_entries w) (watched w) (watch_all w) (found w) (disc_task w) (ann_started w) (announcing w) (insts w) (queues w) (collectors w) (tasks w) (draws w) (out w) (glog w).
+Definition set_sess (v : Session.sess) (w : world) : world := mkWorld (now w) (ready w) (timers w) (cancelled w) (next_id w) (cfg w) (v) (sub_alive w) (sub_task w) (sub_entries w) (watched w) (watch_all w) (found w) (disc_task w) (ann_started w) (announcing w) (insts w) (queues w) (collectors w) (tasks w) (draws w) (out w) (glog w).
+Definition set_sub_alive (v : bool) (w : world) : world := mkWorld (now w) (ready w) (timers w) (cancelled w) (next_id w) (cfg w) (sess w) (v) (sub_task w) (sub_entries w) (watched w) (watch_all w) (found w) (disc_task w) (ann_started w) (announcing w) (insts w) (queues w) (collectors w) (tasks w) (draws w) (out w) (glog w).
+Definition set_sub_task (v : option N) (w : world) : world := mkWorld (now w) (ready w) (timers w) (cancelled w) (next_id w) (cfg w) (sess w) (sub_alive w) (v) (sub_entries w) (watched w) (watch_all w) (found w) (disc_task w) (ann_started w) (announcing w) (insts w) (queues w) (collectors w) (tasks w) (draws w) (out w) (glog w).
+Definition set_sub_entries (v : list (eventgroup * addr)) (w : world) : world := mkWorld (now w) (ready w) (timers w) (cancelled w) (next_id w) (cfg w) (sess w) (sub_alive w) (sub_task w) (v) (watched w) (watch_all w) (found w) (disc_task w) (ann_started w) (announcing w) (insts w) (queues w) (collectors w) (tasks w) (draws w) (out w) (glog w).
+Definition set_watched (v : list (service * list listener)) (w : world) : world := mkWorld (now w) (ready w) (timers w) (cancelled w) (next_id w) (cfg w) (sess w) (sub_alive w) (sub_task w) (sub_entries w) (v) (watch_all w) (found w) (disc_task w) (ann_started w) (announcing w) (insts w) (queues w) (collectors w) (tasks w) (draws w) (out w) (glog w).
+Definition set_watch_all (v : list listener) (w : world) : world := mkWorld (now w) (ready w) (timers w) (cancelled w) (next_id w) (cfg w) (sess w) (sub_alive w) (sub_task w) (sub_entries w) (watched w) (v) (found w) (disc_task w) (ann_started w) (announcing w) (insts w) (queues w) (collectors w) (tasks w) (draws w) (out w) (glog w).
+Definition set_found (v : store) (w : world) : world := mkWorld (now w) (ready w) (timers w) (cancelled w) (next_id w) (cfg w) (sess w) (sub_alive w) (sub_task w) (sub_entries w) (watched w) (watch_all w) (v) (disc_task w) (ann_started w) (announcing w) (insts w) (queues w) (collectors w) (tasks w) (draws w) (out w) (glog w).
+Definition set_disc_task (v : option N) (w : world) : world := mkWorld (now w) (ready w) (timers w) (cancelled w) (next_id w) (cfg w) (sess w) (sub_alive w) (sub_task w) (sub_entries w) (watched w) (watch_all w) (found w) (v) (ann_started w) (announcing w) (insts w) (queues w) (collectors w) (tasks w) (draws w) (out w) (glog w).
+Definition set_ann_started (v : bool) (w : world) : world := mkWorld (now w) (ready w) (timers w) (cancelled w) (next_id w) (cfg w) (sess w) (sub_alive w) (sub_task w) (sub_entries w) (watched w) (watch_all w) (found w) (disc_task w) (v) (announcing w) (insts w) (queues w) (collectors w) (tasks w) (draws w) (out w) (glog w).
+Definition set_announcing (v : list N) (w : world) : world := mkWorld (now w) (ready w) (timers w) (cancelled w) (next_id w) (cfg w) (sess w) (sub_alive w) (sub_task w) (sub_entries w) (watched w) (watch_all w) (found w) (disc_task w) (ann_started w) (v) (insts w) (queues w) (collectors w) (tasks w) (draws w) (out w) (glog w).
+Definition set_insts (v : list (N * inst)) (w : world) : world := mkWorld (now w) (ready w) (timers w) (cancelled w) (next_id w) (cfg w) (sess w) (sub_alive w) (sub_task w) (sub_entries w) (watched w) (watch_all w) (found w) (disc_task w) (ann_started w) (announcing w) (v) (queues w) (collectors w) (tasks w) (draws w) (out w) (glog w).
+Definition set_queues (v : list (dest * N)) (w : world) : world := mkWorld (now w) (ready w) (timers w) (cancelled w) (next_id w) (cfg w) (sess w) (sub_alive w) (sub_task w) (sub_entries w) (watched w) (watch_all w) (found w) (disc_task w) (ann_started w) (announcing w) (insts w) (v) (collectors w) (tasks w) (draws w) (out w) (glog w).
+Definition set_collectors (v : list (N * collector)) (w : world) : world := mkWorld (now w) (ready w) (timers w) (cancelled w) (next_id w) (cfg w) (sess w) (sub_alive w) (sub_task w) (sub_entries w) (watched w) (watch_all w) (found w) (disc_task w) (ann_started w) (announcing w) (insts w) (queues w) (v) (tasks w) (draws w) (out w) (glog w).
+Definition set_tasks (v : list (N * task)) (w : world) : world := mkWorld (now w) (ready w) (timers w) (cancelled w) (next_id w) (cfg w) (sess w) (sub_alive w) (sub_task w) (sub_entries w) (watched w) (watch_all w) (found w) (disc_task w) (ann_started w) (announcing w) (insts w) (queues w) (collectors w) (v) (draws w) (out w) (glog w).
+Definition set_draws (v : list N) (w : world) : world := mkWorld (now w) (ready w) (timers w) (cancelled w) (next_id w) (cfg w) (sess w) (sub_alive w) (sub_task w) (sub_entries w) (watched w) (watch_all w) (found w) (disc_task w) (ann_started w) (announcing w) (insts w) (queues w) (collectors w) (tasks w) (v) (out w) (glog w).
+Definition set_out (v : list (N * event)) (w : world) : world := mkWorld (now w) (ready w) (timers w) (cancelled w) (next_id w) (cfg w) (sess w) (sub_alive w) (sub_task w) (sub_entries w) (watched w) (watch_all w) (found w) (disc_task w) (ann_started w) (announcing w) (insts w) (queues w) (collectors w) (tasks w) (draws w) (v) (glog w).
+Definition set_glog (v : list (N * gev)) (w : world) : world := mkWorld (now w) (ready w) (timers w) (cancelled w) (next_id w) (cfg w) (sess w) (sub_alive w) (sub_task w) (sub_entries w) (watched w) (watch_all w) (found w) (disc_task w) (ann_started w) (announcing w) (insts w) (queues w) (collectors w) (tasks w) (draws w) (out w) (v).
